@@ -38,6 +38,8 @@ class Monitors:
         self.which = set(which)
         self.tolerated = [r for p in sorted(self.which) for r in tolerated_signatures(p)]
         self.known_hits = []
+        self.op_mark = 0
+        self.had_join = False
         self.snap = {}          # arn -> record snapshot taken when first seen terminal
         self.hist_len_at_term = {}
         self.err = ""
@@ -127,6 +129,19 @@ class Monitors:
             if self.sm_types.get(per[arn][0][1]["detail"]["stateMachineArn"], "STANDARD") == "EXPRESS":
                 if ("C09" in self.which or "C11" in self.which) and (rec is not None or hist is not None):
                     self.fail("EXPRESS execution %s stored a record/history" % arn)
+        # ---- C03: ordering inside one handler invocation -----------------------------
+        if "C03" in self.which:
+            ops = sim.BROKER.oplog[self.op_mark:]
+            self.op_mark = len(sim.BROKER.oplog)
+            acked = None
+            for o in ops:
+                if o[0] == "ack" and o[1].startswith("ev"):
+                    acked = o
+                elif acked is not None and (o[0] == "broadcast" or (o[0] == "publish" and o[1].startswith("ev"))):
+                    tag = "[join] " if (self.had_join or inst.eng.branch_metadata) else ""
+                    self.fail("C03 %sevent %s acknowledged before a consequence of the same handler was issued (%s %s)" % (tag, acked[2], o[0], o[1]))
+                    break
+            self.had_join = bool(inst.eng.branch_metadata)
         # ---- C03: carrier -------------------------------------------------------
         if "C03" in self.which and run is not None:
             running = [a for a, n in per.items() if len(n) == 1]
